@@ -36,7 +36,23 @@ CONFIGS = [
     {'kind': 'dir', 'serialized': True, 'protocol': None, 'memmode': 'r+'},
     {'kind': 'dir', 'serialized': True, 'protocol': None, 'fast': True},
     {'kind': 'file', 'serialized': True, 'protocol': 0},
+    # the archive is addressed through a symbolic link (a data directory that lives on another volume)
+    {'kind': 'file', 'serialized': True, 'protocol': None, 'symlink': True},
+    {'kind': 'dir', 'serialized': True, 'protocol': None, 'symlink': True},
 ]
+
+
+def make_symlink(b, root):
+    """before the archive is first opened: its name is a (relative, so every copy of the tree keeps its own) symbolic
+    link to a place under root/real"""
+    name = 'arch.pkl' if b['kind'] == 'file' else 'archdir'
+    real = os.path.join(root, 'real')
+    os.makedirs(real, exist_ok=True)
+    if b['kind'] == 'dir':
+        os.makedirs(os.path.join(real, name), exist_ok=True)
+    link = os.path.join(root, name)
+    if not os.path.lexists(link):
+        os.symlink(os.path.join('real', name), link)
 
 
 def ensure_shim():
@@ -71,6 +87,8 @@ def child_main(path):
     b, root = job['backend'], job.get('root')
     kind = job['job']
     if kind == 'build':
+        if b.get('symlink'):
+            make_symlink(b, root)
         a = archmon.public_open(b, root, False)
         for rnd in range(int(job.get('history', 0)), -1, -1):
             for k, v in job['items']:
@@ -177,9 +195,9 @@ _INTERPOSED = {'rename': 'rename', 'renameat': 'rename', 'renameat2': 'rename', 
                'mkdirat': 'mkdir', 'unlink': 'unlink', 'chmod': 'chmod', 'fchmodat': 'chmod', 'link': 'link',
                'symlink': 'symlink'}
 _FD_INTERPOSED = {'write': 'write', 'pwrite64': 'pwrite', 'writev': 'writev', 'ftruncate': 'ftruncate',
-                  'fsync': 'fsync', 'fdatasync': 'fdatasync'}
+                  'fsync': 'fsync', 'fdatasync': 'fdatasync', 'sendfile': 'sendfile', 'copy_file_range': 'copy_file_range'}
 _UNINTERPOSED = ('openat2', 'pwritev', 'pwritev2', 'truncate', 'sync_file_range', 'fchmod', 'linkat', 'symlinkat',
-                 'fallocate', 'copy_file_range', 'sendfile', 'mknod', 'mknodat', 'setxattr', 'fsetxattr')
+                 'fallocate', 'mknod', 'mknodat', 'setxattr', 'fsetxattr')
 
 
 def strace_mutations(path, root):
@@ -212,10 +230,11 @@ def strace_mutations(path, root):
                 if w:
                     out.append('open-w')
             elif name in _FD_INTERPOSED:
-                if ('<' + root) in first:
+                target = first if name != 'copy_file_range' else (args.split(',') + ['', '', ''])[2]
+                if ('<' + root) in target:
                     out.append(_FD_INTERPOSED[name])
-                    if name in ('write', 'pwrite64', 'writev'):
-                        written.add(first.split('<', 1)[0].strip())
+                    if name in ('write', 'pwrite64', 'writev', 'sendfile', 'copy_file_range'):
+                        written.add(target.split('<', 1)[0].strip())
             elif name == 'close':
                 fd = first.split('<', 1)[0].strip()
                 if ('<' + root) in first and fd in written:
